@@ -49,10 +49,15 @@ pub fn diff_outcome(d: detdiff::Diff, ev: &mut crate::engine::Ev, prefix: &str) 
 /// decoder that keeps state per thread answers differently on one of them.
 ///
 /// `stride`: the fresh thread is used for the cases whose content hash is a
-/// multiple of it (a thread start costs 10-50 times a decode).
+/// multiple of it (a thread start costs 10-50 times a decode, and sixteen
+/// workers starting threads at once contend in the kernel); the thorough tier
+/// multiplies the stride by 16, which still leaves it more fresh-thread cases
+/// than the quick tier has.
+pub static FRESH_THREAD_THINNING: std::sync::atomic::AtomicU64 = std::sync::atomic::AtomicU64::new(1);
 pub fn diff_both(f: fn(&[u8]) -> detdiff::Diff, bytes: &[u8], stride: u64, ev: &mut crate::engine::Ev, prefix: &str) -> Result<&'static str, crate::engine::Fail> {
     let here = f(bytes);
-    if crate::engine::fingerprint(&bytes) % stride.max(1) != 0 {
+    let stride = stride.max(1) * FRESH_THREAD_THINNING.load(std::sync::atomic::Ordering::Relaxed).max(1);
+    if crate::engine::fingerprint(&bytes) % stride != 0 {
         return diff_outcome(here, ev, prefix);
     }
     ev.label("also decoded as the first packet of a fresh thread");
